@@ -84,6 +84,13 @@ func bodyEvents(b *hclsyntax.Body, src []byte, comments []c20Comment, lo, hi int
 	}
 	for _, bl := range b.Blocks {
 		childSpans = append(childSpans, span{bl.Range().Start.Byte, bl.OpenBraceRange.Start.Byte})
+		// ... and so does a comment behind the closing brace, on its line
+		e := bl.CloseBraceRange.End.Byte
+		eol := e
+		for eol < len(src) && src[eol] != '\n' {
+			eol++
+		}
+		childSpans = append(childSpans, span{e, eol + 1})
 	}
 	for _, c := range comments {
 		p := c.tok.Range.Start.Byte
@@ -306,7 +313,11 @@ func (g *c20Gen) write(items []*c20Item, ind string, sb *strings.Builder) {
 			}
 			sb.WriteString(ws() + "{\n")
 			g.write(it.body, ind+gen.Pick(r, []string{"  ", "    ", "\t", ""}), sb)
-			sb.WriteString(ind + "}\n")
+			sb.WriteString(ind + "}")
+			if r.Chance(1, 6) { // a comment behind the closing brace, on its line
+				sb.WriteString(gen.Pick(r, []string{" ", "", "\t"}) + gen.Pick(r, []string{"/* end */", "# end", "// end", "/* a */ /* b */", "/* end */ # and more"}))
+			}
+			sb.WriteString("\n")
 		}
 	}
 }
@@ -402,7 +413,16 @@ func c20Line(c *Ctx, in string) {
 				}
 				switch p[0] {
 				case "set":
-					b.SetAttributeValue(p[2], c20Value(p[3]))
+					if strings.HasPrefix(p[3], "r") { // a reference: SetAttributeTraversal
+						names := strings.Split(string(unhx(p[3][1:])), ".")
+						tr := hcl.Traversal{hcl.TraverseRoot{Name: names[0]}}
+						for _, n := range names[1:] {
+							tr = append(tr, hcl.TraverseAttr{Name: n})
+						}
+						b.SetAttributeTraversal(p[2], tr)
+					} else {
+						b.SetAttributeValue(p[2], c20Value(p[3]))
+					}
 					done = append(done, "ok")
 				case "rm":
 					if b.RemoveAttribute(p[2]) != nil {
@@ -539,6 +559,8 @@ func runC20(c *Ctx) {
 				v := gen.Pick(r, []string{"n7", "n0", "n-3", "n9223372036854775807", "n9223372036854775808", "n18446744073709551615", "n-9223372036854775809", "n123456789012345678901234567890", "t", "f", "s" + hx([]byte("new value")), "s" + hx([]byte("q\"uote")), "s-", "l" + hx([]byte("a")) + "+" + hx([]byte("b")), "l"})
 				if r.Chance(1, 3) {
 					v = "s" + hx([]byte(composed(true)))
+				} else if r.Chance(1, 4) { // a reference instead of a value (SetAttributeTraversal); later edits hit the same attribute
+					v = "r" + hx([]byte(gen.Pick(r, []string{"var.name", "local.x.y", "a", "module.m.out.id"})))
 				}
 				ops = append(ops, "set:"+path+":"+gen.Pick(r, names)+":"+v)
 				c.Count("op.set")
